@@ -316,3 +316,31 @@ Example ex_writable_development :
      with Ok l => Some (registrations l) | Err _ => None end)
   = Some [Some (s2l "connect"); Some (s2l "emit"); Some (s2l "join"); Some (s2l "leave"); Some (s2l "_disconnect")].
 Proof. vm_compute. reflexivity. Qed.
+
+(* ---- combined forms stated in Props/C18.v ---- *)
+Lemma auth_decision_both o c sid env a :
+  ext_total o ->
+  InstrumentedServer_admin_connect o (mk_admin_self c) sid env a = auth_outcome (pred_sync o) (a_auth c) a /\
+  InstrumentedAsyncServer_admin_connect o (mk_admin_self c) sid env a = auth_outcome (pred_async o) (a_auth c) a.
+Proof.
+  intro H. exact (conj (sync_admin_connect_spec o c sid env a H) (async_admin_connect_spec o c sid env a H)).
+Qed.
+
+Lemma registrations_both (c : acfg) :
+  (exists items, InstrumentedServer_instrument (mk_admin_self c) = Ok items /\
+     registrations items = spec_registrations c /\ patches_app_path items = is_development c) /\
+  (exists items, InstrumentedAsyncServer_instrument (mk_admin_self c) = Ok items /\
+     registrations items = spec_registrations c /\ patches_app_path items = is_development c).
+Proof. exact (conj (sync_instrument_spec c) (async_instrument_spec c)). Qed.
+
+Lemma read_only_both (c : acfg) :
+  truthy (a_read_only c) = true \/ is_development c = false ->
+  (forall items it ev, InstrumentedServer_instrument (mk_admin_self c) = Ok items ->
+     In it items -> on_event it = Some ev -> is_write_event ev = false) /\
+  (forall items it ev, InstrumentedAsyncServer_instrument (mk_admin_self c) = Ok items ->
+     In it items -> on_event it = Some ev -> is_write_event ev = false).
+Proof.
+  intro H. split.
+  - exact (read_only_registers_no_write_handler _ c (sync_instrument_spec c) H).
+  - exact (read_only_registers_no_write_handler _ c (async_instrument_spec c) H).
+Qed.
